@@ -13,6 +13,7 @@ package lispsim
 // the sentinel) and the ordered trace of body / handler / finally effects.
 
 import (
+	"os"
 	"context"
 	"errors"
 	"fmt"
@@ -733,10 +734,26 @@ func (c03) Run(tp *Tape, opt RunOpt) *RunOut {
 		panic("c03 setup: " + err.Error())
 	}
 
+	// the caller's deadline is a knob of the run: an hour, or one of the far-away instants embedders use for
+	// "practically never" (a try form computes a share of what is left of it)
+	horizon := []time.Duration{time.Hour, time.Hour, 40 * 365 * 24 * time.Hour, 120 * 365 * 24 * time.Hour, 250 * 365 * 24 * time.Hour}[tp.Draw(LaneFault, 5)]
+	if y := os.Getenv("LISPSIM_C03_HORIZON_Y"); y != "" {
+		n, _ := strconv.Atoi(y)
+		horizon = time.Duration(n) * 365 * 24 * time.Hour
+	}
+	far := horizon > time.Hour
+	if far {
+		// (no budget-timeout faults in these runs: each would move the fake clock forward by decades, all plans of
+		// a run share one clock, and the clock of the bubble cannot pass the year 2262)
+		out.Stats["knob:deadline-decades-away"]++
+	}
 	// ---- the plans: no fault, every single fault, drawn multi-fault plans ----
 	plans := []c03Plan{{}}
 	for site := 1; site <= g.sites; site++ {
 		for _, f := range c03Faults[1:] {
+			if far && f == "budget-timeout" {
+				continue
+			}
 			plans = append(plans, c03Plan{site: f})
 		}
 	}
@@ -752,6 +769,9 @@ func (c03) Run(tp *Tape, opt RunOpt) *RunOut {
 		for site := 1; site <= g.sites; site++ {
 			if tp.Chance(LaneFault, 1, 2) {
 				p[site] = c03Faults[1+tp.Draw(LaneFault, len(c03Faults)-1)]
+				if far && p[site] == "budget-timeout" {
+					p[site] = "err"
+				}
 			}
 		}
 		plans = append(plans, p)
@@ -772,7 +792,7 @@ func (c03) Run(tp *Tape, opt RunOpt) *RunOut {
 			}()
 			// every plan runs under a deadline of one simulated hour: nothing consumes simulated time
 			// except a budget-timeout fault, which waits for the end of the context it was handed
-			ctx, cancel := context.WithTimeout(context.Background(), time.Hour)
+			ctx, cancel := context.WithTimeout(context.Background(), horizon)
 			spy := &stepSpy{budget: 300000, cancel: cancel}
 			simhook.Install(spy)
 			res, err := lisp.EVAL(ctx, ast, e)
